@@ -7,7 +7,9 @@ RULE = ("random histories of gate updates (OutputStream updates with 0-4 message
         "over ASCII/control/non-ASCII characters) interleaved with Single/Bulk/Withdraw/WithdrawBulk/QueryResult/"
         "EndOfStream updates, run through the real file-out loop (all three formats, both ways of ending) and the real "
         "mqtt-out runner (random component names, topic templates with zero to several and partial {id} placeholders, "
-        "ingress registrations); a file case is non-trivial when the file has at least two lines and the history mixes "
+        "calls on the shared ingress register BETWEEN the messages: new ingresses, ids registered without an entry, update_info of "
+        "single fields and of several on known, unknown and never registered ids, nearly half of the cases concentrating on two ids; "
+        "reconfigurations of template and QoS); a file case is non-trivial when the file has at least two lines and the history mixes "
         "output-stream updates with other updates or has several of them; an mqtt case when at least one message is "
         "published and at least one is not addressed to the target; distinct = distinct case text")
 TRUSTED_BASE = [
@@ -18,7 +20,8 @@ TRUSTED_BASE = [
     "harness parse-back of every line / payload (serde_json, csv) to a canonical record token, incl. its conventions for csv "
     "(no field names: bare number < 1000 = MED, >= 1000 = LOCAL_PREF)",
     "modelled, not verified: src/targets/file/target.rs (OutputStream arm of the run loop), src/targets/mqtt/target.rs "
-    "(output_stream_message_to_msg, direct_update, publish arm); NOT modelled, only exercised: the bytes serde_json/csv print "
+    "(output_stream_message_to_msg, direct_update, publish arm, reconfigure), src/ingress.rs (Register::get/update_info as the shared "
+    "state mqtt-out reads; the same model as C14's, proved equivalent: C17_register_is_the_C14_register); NOT modelled, only exercised: the bytes serde_json/csv print "
     "(roto_runtime/types.rs and payload.rs Serialize impls), tokio, BufWriter, the gate",
 ]
 ASSUMPTIONS = [
@@ -31,6 +34,12 @@ ASSUMPTIONS = [
     "mqtt: after the publish queue is drained). Updates still queued when Terminate arrives are discarded by both targets (select prefers the command); "
     "that shutdown race is outside the model",
     "mqtt: the order of direct_update calls is the emission order (one gate, sequential sender)",
+    "mqtt: the register and the configuration change BETWEEN direct_update calls (the harness calls update_info between gate updates, as an "
+    "ingress unit does before it emits; Gate::update_data awaits direct_update, so the emission is the moment of the lookup). An update_info "
+    "racing with one direct_update call from another thread is ordered by the register's RwLock either before or after each get; that race is not exercised",
+    "mqtt: a Reconfigure is exercised at quiet moments only (the harness waits until everything emitted so far is published, sends the command, and "
+    "waits until the target has handled it). That a message still queued at that moment keeps its topic and gets the new QoS is what the model says "
+    "(and the code: topic fixed in direct_update, QoS read in the publish arm); it is proved about the model, not exercised",
 ]
 
 LETTERS = [ord(c) for c in "abcdefghijklmnopqrstvwxyzABCXYZ"]          # no 'u': the text "null" would parse as a record
@@ -100,6 +109,27 @@ def ing(rng):
     return "-" if rng.chance(45) else str(rng.below(4))
 
 
+def info_fields(rng, single=False):
+    """the 8 fields of an IngressInfo; `single`: exactly one field set (what an update of an existing entry
+    typically is: bmp Initiation adds the name, a reconnect refreshes the address)"""
+    def val(i):
+        return str(rng.below(3 if i == 4 else 4))
+    if single:
+        k = rng.choice([0, 2, 3, 4, 6, 6, 6, 7, 1, 5])
+        return " ".join(val(i) if i == k else "-" for i in range(8))
+    return " ".join(val(i) if rng.chance(45) else "-" for i in range(8))
+
+
+def register_op(rng, ids=4):
+    """a call of an ingress unit on the shared register"""
+    k = rng.weighted([("ing", 25), ("reg", 15), ("G1", 40), ("G", 20)] if ids > 2 else [("ing", 8), ("reg", 7), ("G1", 55), ("G", 30)])
+    if k == "ing":
+        return "ing " + info_fields(rng)
+    if k == "reg":
+        return "reg"
+    return "G %d %s" % (rng.below(ids), info_fields(rng, single=(k == "G1")))
+
+
 def msg(rng, defects, names=(0,), topics=False):
     k = rng.weighted([("r", 30), ("d", 15), ("u", 15), ("e", 40)])
     if k == "r":
@@ -130,8 +160,11 @@ def other_update(rng):
 
 def gen_file_case(rng, defects):
     ops = ["fmt " + rng.choice(["json", "jsonmin", "csv"]), "end " + rng.choice("TG")]
+    regs = rng.chance(25)
     for _ in range(rng.range(1, 8)):
-        if rng.chance(62):
+        if regs and rng.chance(25):
+            ops.append(register_op(rng))
+        elif rng.chance(62):
             ops.append(("O " + " ".join(msg(rng, defects) for _ in range(rng.weighted([(0, 5), (1, 40), (2, 30), (3, 15), (4, 10)])))).strip())
         else:
             ops.append(other_update(rng))
@@ -143,24 +176,34 @@ TPL_PIECES = ["114.111.116.111.110.100.97.47", "123.105.100.125", "123", "105.10
 
 def gen_mqtt_case(rng, defects):
     ops = []
-    name = rng.choice([0, 0, 0, 0, 0, 0, 1, 3, 4])
+    # nearly half of the cases concentrate on one or two ingress ids whose entry keeps changing between their messages
+    focus = rng.chance(45)
+    name = rng.choice([0, 0, 0, 0, 0, 0, 0, 0, 1, 4] if focus else [0, 0, 0, 0, 0, 0, 1, 3, 4])
     if name or rng.chance(30):
         ops.append("name %d" % name)
     if rng.chance(55):
         ops.append("tpl " + ".".join(rng.choice(TPL_PIECES) for _ in range(rng.range(1, 5))))
     if rng.chance(40):
         ops.append("qos %d" % rng.below(3))
-    if defects and rng.chance(50):
+    early = defects and rng.chance(50)
+    if early:
         ops.append("early")
     names = [name, name, 0, 1, 2, 3, 4]
-    for _ in range(rng.weighted([(0, 40), (1, 35), (2, 25)])):
-        ops.append("ing " + " ".join(opt(rng, lambda: rng.below(3 if i == 4 else 4), 45) for i in range(8)))
-    for _ in range(rng.range(1, 8)):
+    for _ in range(rng.weighted([(0, 35), (1, 35), (2, 30)])):
+        ops.append("reg" if rng.chance(25) else "ing " + info_fields(rng))
+    for _ in range(rng.range(4, 12) if focus else rng.range(1, 8)):
         r = rng.below(100)
-        if r < 18:
-            ops.append("ing " + " ".join(opt(rng, lambda: rng.below(3 if i == 4 else 4), 45) for i in range(8)))
-        elif r < 75:
-            ops.append(("O " + " ".join(msg(rng, False, names, topics=True) for _ in range(rng.weighted([(0, 5), (1, 40), (2, 30), (3, 15), (4, 10)])))).strip())
+        if r < (40 if focus else 22):
+            ops.append(register_op(rng, 2 if focus else 4))
+        elif r < (46 if focus else 28) and not early:
+            ops.append("R %s %d" % (".".join(rng.choice(TPL_PIECES) for _ in range(rng.range(1, 4))), rng.below(3)))
+        elif r < 82:
+            n = rng.weighted([(0, 5), (1, 40), (2, 30), (3, 15), (4, 10)])
+            ms = [msg(rng, False, names, topics=True) for _ in range(n)]
+            if focus:
+                # point most messages at one of the first two ids
+                ms = [":".join(m.split(":")[:-1] + [str(rng.below(2))]) if rng.chance(75) else m for m in ms]
+            ops.append(("O " + " ".join(ms)).strip())
         else:
             ops.append(other_update(rng))
     return ";".join(ops)
@@ -231,7 +274,31 @@ def classify_mqtt(case, out):
         ks.append("other-component-name")
     if any(o[0] == "early" for o in ops):
         ks.append("early-traffic")
-    return ks
+    if any(o[0] == "R" for o in ops):
+        ks.append("reconfigured")
+    # register traffic between the messages of one ingress id
+    nreg, seen, touched = 0, set(), set()
+    for o in ops:
+        if o[0] in ("ing", "reg"):
+            nreg += 1
+        elif o[0] == "G":
+            k = int(o[1])
+            key = k if k < nreg else 1000000 + k
+            if key in seen:
+                touched.add(key)
+        elif o[0] == "O":
+            for m in o[1:]:
+                t = m.split(":")[-1]
+                if t == "-":
+                    continue
+                k = int(t)
+                key = k if k < nreg else 1000000 + k
+                if key in touched:
+                    ks.append("metadata-changed-between-messages-of-an-id")
+                seen.add(key)
+    if any(o[0] == "reg" for o in ops):
+        ks.append("id-registered-without-entry")
+    return sorted(set(ks))
 
 
 def corpus_file():
@@ -252,6 +319,8 @@ def corpus_file():
         "fmt csv;O e:1,-,-,-,0,0,-,-,-,-:10:- u:1:2:-",
         # only route traffic
         "S R0,1,8,0;W 0;Q;U 1;WB 0 1;B R0,1,8,0 R1,1,8,0;O",
+        # file-out attaches no ingress metadata: whatever happens to the register, the lines are the records
+        "fmt json;ing 1 - 2 - - - 3 -;O u:1:1:0;G 0 - - - - - - 0 -;O u:2:2:0 d:0:104.105:2:65001:0;reg;G 1 1 1 1 1 1 1 1 1;O u:3:3:1",
         # exotic but valid texts
         "fmt json;O e:1,-,-,-,0,0,-,-,-,-:34.123.125.92.13.9.0.233.8364.128512.65279:-",
         "fmt csv;O e:1,-,-,-,0,0,-,-,-,-:34.97.44.34.34.98:- e:1,-,-,-,0,0,-,-,-,-:97.44.98:-",
@@ -269,6 +338,23 @@ def corpus_mqtt():
         "O u:1:1:5;ing 1 1 1 1 1 1 1 1;O u:2:2:0 u:3:3:1",
         # known finding C17-mqtt-no-client
         "early;O u:1:1:- u:2:2:-;O u:3:3:-",
+        # the register is shared, changing state (seeded change C17-b2: a remembered copy of an id's metadata).
+        # a bmp router: unit + address when it connects, its name with the Initiation message; then a second router
+        "ing 1 - 2 - - - - -;O d:0:104.105:2:65001:0;G 0 - - - - - - 3 -;O d:0:104.105:2:65001:0;ing - - - - - - 2 -;"
+        "O d:0:104.105:2:65001:1 d:0:104.105:2:65001:0",
+        # an id that is registered but has no entry yet, then gets one, field by field
+        "reg;O u:1:1:0;G 0 1 - - - - - - -;O u:2:2:0;G 0 - - 5 - - - - -;O u:3:3:0;G 0 - - - - - - - -;O u:4:4:0",
+        # an id nobody handed out gets an entry all the same (update_info inserts)
+        "O u:1:1:2;G 2 - - - 65000 - - - -;O u:2:2:2 u:3:3:1",
+        # two ids, fields overwritten and added in turn, both in every update
+        "ing 1 - - - - - 1 -;ing 2 - - - - - 2 -;O u:1:1:0 u:1:1:1;G 1 - - - - - - 3 -;O u:2:2:0 u:2:2:1;G 0 - - - - - - 0 3;"
+        "O u:3:3:0 u:3:3:1;G 0 0 1 1 1 1 1 1 1;G 1 - - - - 2 - - -;O u:4:4:1 u:4:4:0",
+        # a reconnecting router: same id, address and AS refreshed; route traffic in between
+        "ing 2 - 4 65000 0 - 1 -;O p:R0,5,24,o1:0;S R0,1,8,0;G 0 - - 6 65001 - - - -;W 0;O p:R0,5,24,o1:0 e:1,-,-,-,0,0,-,-,-,-:-:0",
+        # reconfiguration: the topic template is read when a message is emitted, the QoS when it is published
+        "tpl 97.47.123.105.100.125;qos 0;O d:0:120:2:1:-;R 98.47.123.105.100.125 1;O d:0:120:2:2:-;R 99 2;O d:0:121:2:3:-",
+        "name 1;ing 1 - - - - - - -;O d:1:120:2:1:0 d:0:120:2:1:0;R 123.105.100.125.47.123.105.100.125 1;G 0 - 7 - - - - - -;"
+        "O d:1:120:2:2:0;R 123.105.100.125.47.123.105.100.125 1;O d:1:121:2:3:0",
     ]
 
 
@@ -316,7 +402,9 @@ EXTRAS = []
 LEVEL_TEXT = ("Theorems over all histories of gate updates for the file-out loop (content = every emitted message once, in order; route traffic "
               "invisible; later messages unaffected; lines per message; exact line count; one parse-back line per message for newline-free texts and "
               "csv-representable routes, shown false otherwise) and over all interleavings of updates, publish-loop steps, registrations and client "
-              "hand-overs for mqtt-out (exactly the addressed messages once, in order, when the loop publishes with a client; shown false otherwise; "
+              "hand-overs, update_info calls on the shared ingress register and reconfigurations for mqtt-out (exactly the addressed messages once, "
+              "in order, when the loop publishes with a client; shown false otherwise; every published message, in every history, carries the ingress "
+              "metadata and topic template of the moment it was emitted, never an older copy; register entry = merge of the update_info calls of that id; "
               "selection = name equality; topic template substitution), kernel-checked, axiom-free; model tied to src/targets/{file,mqtt}/target.rs by "
               "differential execution through the real run loops on every run. PARTIAL: serde/csv rendering is exercised (every line and payload "
               "parsed back), not proved.")
